@@ -333,7 +333,7 @@ class SignAlign:
                             ok = False
                     else:
                         ok = False
-                flat(node.args[0])
+                flat(resolved(self.f.node, node.args[0]))
                 return ks if ok and ks else None
             if cn == "np.linalg.norm" and node.args:
                 v = self.vec(node.args[0], p)
@@ -421,7 +421,7 @@ def _name_local_direction(f):
 def r_signalign(idx, rep, rule="R-SIGNALIGN"):
     rep.rule(rule, "closed-form support functions: on every return path each local component of the support point is a "
                    "non-negative multiple of the same direction component, a constant whose sign the path's tests justify, or "
-                   "zero (<support - centre, d> >= 0); the cone takes the candidate with the larger projection", floor=12)
+                   "zero (<support - centre, d> >= 0); the cone takes the candidate with the larger projection", floor=12, unknown_ceiling=4)
     names = ["support_function_cylinder", "support_function_capsule", "support_function_ellipsoid", "support_function_box",
              "support_function_sphere", "support_function_disk", "support_function_ellipse", "support_function_cone"]
     for name in names:
@@ -436,6 +436,8 @@ def r_signalign(idx, rep, rule="R-SIGNALIGN"):
             if p.ret is None:
                 continue
             npaths += 1
+            if isinstance(p.ret, ast.Name) and not (p.env.get(p.ret.id) and p.env[p.ret.id][0] == "vec"):
+                p.ret = resolved(f.node, p.ret)          # `tmp = transform_point(T, v); return tmp`
             local = _local_vertex(p.ret, p)
             where = "%s:%d" % (f.module.relpath, p.ret.lineno)
             pathtxt = ", ".join("d%d %s" % (k, "/".join(sorted(v))) for k, v in sorted(p.facts.items())) or "no tests"
@@ -444,13 +446,11 @@ def r_signalign(idx, rep, rule="R-SIGNALIGN"):
                 rep.ok(rule, key, where, "returns the centre (zero offset)")
                 continue
             if local is None:
-                rep.unknown(rule, key, where, "local support point expression not recognised")
-                rep.error("R-SIGNALIGN cannot interpret `%s` in %s" % (u(p.ret), f.key))
+                rep.unknown(rule, key, where, "local support point expression `%s` not recognised: this return path is not decided" % u(p.ret)[:80])
                 continue
             v = sa.vec(local, p)
             if not isinstance(v, list):
-                rep.unknown(rule, key, where, "components of `%s` not tracked" % u(local))
-                rep.error("R-SIGNALIGN cannot track `%s` in %s" % (u(local), f.key))
+                rep.unknown(rule, key, where, "components of `%s` not tracked: this return path is not decided" % u(local))
                 continue
             if name.endswith("cone") and p.env.get("__proj") and p.env["__proj"][0] == "apex" and _apex_like(v, p.env["__proj"][2]):
                 rep.ok(rule, key, where, "apex candidate (selected by the projection comparison)")
